@@ -136,6 +136,13 @@ def reference_history(cfg, x, seq):
             m = mu[j]
             if dead is None and m < 0:
                 dead = "null-false"
+            if dead is None and m == 0.0:
+                # exactly nothing is left under the null: a positive (padded) draw refutes it, a zero says nothing
+                if xs[j] > 0:
+                    dead = "null-false"
+                else:
+                    out.append((_p(T), "product"))
+                    continue
             if dead is None and abs(m) <= 1e-6 * max(1.0, t + g):
                 dead = "mu-at-boundary"
             if dead == "null-false":
